@@ -88,6 +88,35 @@ def run(repo, rep, tier):
             rep.finding(r4, f.qualname, 'start_timer', 'start', OPS,
                         f.node.lineno, 'start_timer(<own name>) is not '
                         'called exactly once directly before the try')
+        # nothing that can fail runs before the timer is started and the
+        # call is staged for the recorders: a failure there (argument
+        # validation) would be missing from the statistics and from the
+        # recorders although the caller sees the exception
+        if idx is not None:
+            early = []
+            for s in body[:idx]:
+                if isinstance(s, (ast.FunctionDef, ast.AsyncFunctionDef,
+                                  ast.ClassDef)):
+                    continue          # a definition does not run its body
+                for c in walk_no_nested(s):
+                    if isinstance(c, ast.Call):
+                        d = dotted(c.func) or ''
+                        if d.startswith('self.operation_recorder_') or \
+                                d in ('self._verify_open',):
+                            continue
+                        early.append(c)
+            r4.ob(not early, f.name + ':nothing-before-start',
+                  {'calls_before_start_timer': [norm(c, 50) for c in early]})
+            if early:
+                r4_ok_all = False
+                rep.finding(r4, f.qualname, norm(early[0], 60),
+                            'before-start', OPS, early[0].lineno,
+                            '%s runs before start_timer() and before the '
+                            'recorders stage the call: when it raises (e.g. '
+                            'argument validation), the failed operation is '
+                            'not counted in the statistics and not seen by '
+                            'the recorders, while the sibling operations '
+                            'count such failures' % norm(early[0], 50))
         t = op.main_try
         in_fin = t is not None and op.stop_timer and any(
             x is op.stop_timer[0] for s in t.finalbody for x in ast.walk(s))
